@@ -34,6 +34,7 @@ fn gen(rng: &mut Rng, idx: u64, tier: Tier) -> Case {
     let mut args = vec![format!("--delete-after={}", d)];
     if rng.chance(0.5) { args.push("--use-update-method".into()); }
     if rng.chance(0.5) { args.push("--relaxed".into()); }
+    gen::add_neutral_options(rng, &mut args, true, true);
     let mut lines: Vec<(i64, Vec<u8>, String)> = vec![];
     if idx % 3 == 0 {
         // dense enumeration of short histories
